@@ -538,7 +538,28 @@ let sc_sorter_operand_merge c =
   So.c_sorter_destroy s; destroy c sid; Mg.c_merge_clos_free mc;
   observe c "sorter_destroy" ~threads_exact:true
 
-let scenarios = [| ("writer", sc_writer); ("reader", sc_reader); ("merger", sc_merger); ("sorter", sc_sorter); ("fileset", sc_fileset); ("sorter_final_flush_fails", sc_sorter_final_flush_fails); ("sorter_write_refused", sc_sorter_write_refused); ("fileset_long", sc_fileset_long); ("writer_path", sc_writer_path); ("fileset_kinds", sc_fileset_kinds); ("seeks", sc_seeks); ("sorter_zero_pool", sc_sorter_zero_pool); ("merger_empty_values", sc_merger_empty_values); ("sorter_operand_merge", sc_sorter_operand_merge) |]
+(* a process that has closed its standard input (a daemon): the writer's private dup() of the output descriptor is
+   descriptor 0, and is released by mtbl_writer_destroy like any other.  Observed at the end only (descriptor 0 is put
+   back first, so the count is comparable with the start) *)
+let sc_writer_fd0 c =
+  let path = Filename.concat c.dir "w0.mtbl" in
+  (try Sys.remove path with _ -> ());
+  let fd = Wr.c_open_rw path true in
+  Wr.c_close 0;
+  let w = Wr.c_writer_init_fd fd (rint c.st 6, false, 0, true, 1024, false, 0, 0n) in
+  Wr.c_close fd;
+  for i = 0 to rrange c.st 0 60 do ignore (Wr.c_writer_add w (Printf.sprintf "k%04d" i) (String.make (rint c.st 300) 'v')) done;
+  Wr.c_writer_destroy w;
+  (* descriptor 0 back: the lowest free descriptor is 0 exactly when the writer released its own *)
+  let d = Unix.openfile "/dev/null" [ Unix.O_RDONLY ] 0 in
+  ignore d;
+  observe c "writer_destroy(stdin closed)" ~threads_exact:true;
+  (* a reader of that file as well *)
+  let r = Rd.c_reader_init path false false in
+  if r <> 0n then Rd.c_reader_destroy r;
+  observe c "reader_destroy" ~threads_exact:true
+
+let scenarios = [| ("writer_fd0", sc_writer_fd0); ("writer", sc_writer); ("reader", sc_reader); ("merger", sc_merger); ("sorter", sc_sorter); ("fileset", sc_fileset); ("sorter_final_flush_fails", sc_sorter_final_flush_fails); ("sorter_write_refused", sc_sorter_write_refused); ("fileset_long", sc_fileset_long); ("writer_path", sc_writer_path); ("fileset_kinds", sc_fileset_kinds); ("seeks", sc_seeks); ("sorter_zero_pool", sc_sorter_zero_pool); ("merger_empty_values", sc_merger_empty_values); ("sorter_operand_merge", sc_sorter_operand_merge) |]
 
 let run_scenario (name : string) (f : ctx -> unit) ~seed ~index : child_end =
   in_child (fun () ->
@@ -562,7 +583,7 @@ let run_scenario (name : string) (f : ctx -> unit) ~seed ~index : child_end =
 let run ~tier ~seed ~only acc =
   let idx = ref 0 in
   let want () = cur_index := !idx; (match only with None -> true | Some i -> i = !idx) in
-  let n = if tier = "thorough" then 1500 else 154 in
+  let n = if tier = "thorough" then 1500 else 165 in
   for i = 0 to n - 1 do
     if want () then begin
       let (name, f) = scenarios.(i mod Array.length scenarios) in
